@@ -1129,8 +1129,9 @@ def run(P, max_steps=2_000_000, mon=None):
                     allocs.pop()
             del events[elen:]
             if tort_step > cstep:
+                # the tortoise was taken on the abandoned path; keep `power` so that the spacing keeps growing
+                # (resetting it would let a loop whose every iteration speculates starve the detector)
                 tort_mem = None
-                power = 1
                 lam = 0
             if mon is not None:
                 arrived_by = jlabel[jpc]
@@ -1165,11 +1166,12 @@ def run(P, max_steps=2_000_000, mon=None):
                 break
             lam += 1
             if tort_mem is None or lam == power:
+                if tort_mem is not None:
+                    power *= 2
                 tort_pc = pc
                 tort_mem = bytes(mem)
                 tort_step = steps
                 tort_ev = len(events)
-                power *= 2
                 lam = 0
 
     if trap is not None:
